@@ -6,6 +6,7 @@ Property theorems only; helper lemmas live in `Dtn7.Lemmas.Delivery`.
 -/
 import Dtn7.Model.Delivery
 import Dtn7.Lemmas.Delivery
+import Dtn7.Lemmas.DeliveryHist
 import Dtn7.Gen.C07
 
 namespace Dtn7.Props.C07
@@ -171,6 +172,17 @@ theorem delivered_into_mailboxes (cfg : Cfg) (hall : cfg.rangeAll = true) (m : M
         else aload u ra.mailbox :=
   Lemmas.deliver_mailbox cfg hall m hwf b i ra h
 
+/-- **Every history, judged by the independent reference** — `histOk` is the predicate the driver
+evaluates on the implementation's traces: it replays the operations on a flat table "recipient ↦
+endpoints, recipient ↦ mailbox" (`Reg.step`) and demands of every delivery `DeliveredExactly`
+w.r.t. the table's registrations at that moment, and of every REST fetch that it returns exactly
+(as a multiset) what was delivered to that client since its previous fetch. Every trace of the
+model — nested MuxAgent / RestAgent / WebSocketAgent state, `Range` loops, mailbox load-append-store
+— satisfies it, for every sequence of operations. -/
+theorem history_ok (cfg : Cfg) (hall : cfg.rangeAll = true) (ops : List Op) :
+    histOk {} (trace cfg {} ops) = true :=
+  Lemmas.history_ok cfg hall ops
+
 /-- `MuxAgent.Endpoints()` (and so `AgentManager.HasEndpoint`, `Core.HasEndpoint`) knows exactly
 the registered endpoints. -/
 theorem has_endpoint_iff (cfg : Cfg) (hall : cfg.rangeAll = true) (m : Mux) (e : Eid) :
@@ -281,6 +293,13 @@ def exBundle : Bundle := { tok := 5, dest := ⟨"n1", "a"⟩, reportTo := ⟨"rt
 example : (exMux.deliver {} exBundle).2 =
     [(.ping 0, exBundle), (.rest 1 1, exBundle), (.rest 1 2, exBundle), (.ws 2 7, exBundle)] := by decide
 example : exMux.hasEndpoint {} ⟨"n1", "a"⟩ = true ∧ exMux.hasEndpoint {} ⟨"n1", "zz"⟩ = false := by decide
+-- `histOk` is not vacuous: a trace in which a registered mock agent does not get the bundle,
+-- or a REST fetch returns a bundle twice, is rejected
+example : histOk {} [(.addMock 0 [⟨"n1", "a"⟩], []), (.deliver exBundle, [])] = false := by decide
+example : histOk {} [(.addRest 0, []), (.restReg 0 1 ⟨"n1", "a"⟩, []), (.deliver exBundle, [(.rest 0 1, exBundle)]),
+    (.restFetch 0 1, [(.rest 0 1, exBundle), (.rest 0 1, exBundle)])] = false := by decide
+example : histOk {} [(.addRest 0, []), (.restReg 0 1 ⟨"n1", "a"⟩, []), (.deliver exBundle, [(.rest 0 1, exBundle)]),
+    (.restFetch 0 1, [(.rest 0 1, exBundle)]), (.restFetch 0 1, [])] = true := by decide
 -- a complete schedule of two deliveries and two fetches with the mutex
 example :
     let b := fun t : Nat => ({ tok := t, dest := ⟨"n", "a"⟩, reportTo := ⟨"r", ""⟩ } : Bundle)
